@@ -4,6 +4,7 @@ package main
 // RO-IF(context.DontAutoCreate); hand-written frame contracts are verified by the ordinary path.
 
 import (
+	"go/ast"
 	"golang.org/x/tools/go/ssa"
 	"encoding/json"
 	"fmt"
@@ -75,7 +76,16 @@ func frameChecksC08(P *Program, tier string) []extraResult {
 		if inf == nil {
 			// has a hand-written contract: verified by the ordinary obligations of this property
 			con := P.contractFor(h)
-			ok := con != nil && !con.flag("synth") && !con.flag("trusted") && len(con.Modifies) == 0
+			// ghost state (the evaluation log) aside, the contract must state no writes
+			realMods := 0
+			if con != nil {
+				for _, m := range con.Modifies {
+					if id, isId := m.Expr.(*ast.Ident); !isId || fileGhosts[id.Name] == "" {
+						realMods++
+					}
+				}
+			}
+			ok := con != nil && !con.flag("synth") && !con.flag("trusted") && realMods == 0
 			res = append(res, extraResult{Name: "readonly/" + name, Kind: "inferred-frame", OK: ok, Detail: "hand-written frame contract (verified with the function's other obligations)"})
 			continue
 		}
@@ -97,7 +107,16 @@ func frameChecksC08(P *Program, tier string) []extraResult {
 		inf := U[h]
 		if inf == nil {
 			con := P.contractFor(h)
-			ok := con != nil && !con.flag("synth") && !con.flag("trusted") && len(con.Modifies) == 0 && con.ReadonlyIf == nil
+			// ghost state (the evaluation log) aside, the contract must state no writes
+			realMods := 0
+			if con != nil {
+				for _, m := range con.Modifies {
+					if id, isId := m.Expr.(*ast.Ident); !isId || fileGhosts[id.Name] == "" {
+						realMods++
+					}
+				}
+			}
+			ok := con != nil && !con.flag("synth") && !con.flag("trusted") && realMods == 0 && con.ReadonlyIf == nil
 			res = append(res, extraResult{Name: "operands-readonly/" + name, Kind: "inferred-frame", OK: ok, Detail: "hand-written unconditional frame contract"})
 			continue
 		}
